@@ -470,6 +470,9 @@ structure RCtrl where
   info : RuleInfo
   since : Nat := 0
   last : Int := 0
+  /-- ghost: length of the admitted history when this controller (this rule object) came into force;
+      never read by a decision, only by the cap theorem `window_cap_after_reload` -/
+  born : Nat := 0
 deriving Repr
 
 def RCtrl.tokens (srcOf : RuleInfo → Nat) (H : List Arrival) (c : RCtrl) (ms : Nat) : Nat :=
@@ -504,15 +507,15 @@ def refReloadFrom (pool : List RCtrl) (acc : List RCtrl) (hlen : Nat) : Nat → 
       | (none, some j) =>
         match pool[j]? with
         | some c => refReloadFrom (pool.eraseIdx j)
-            (acc ++ [{ info := { idx := i, rule := r, geom := c.info.geom }, since := c.since }]) hlen (i + 1) rs
+            (acc ++ [{ info := { idx := i, rule := r, geom := c.info.geom }, since := c.since, born := hlen }]) hlen (i + 1) rs
         | none => refReloadFrom pool acc hlen (i + 1) rs
       | (none, none) =>
         match r.kind with
-        | .throttle _ => refReloadFrom pool (acc ++ [{ info := { idx := i, rule := r, geom := .bad } }]) hlen (i + 1) rs
+        | .throttle _ => refReloadFrom pool (acc ++ [{ info := { idx := i, rule := r, geom := .bad }, born := hlen }]) hlen (i + 1) rs
         | .reject =>
           match geomFor r.iv with
           | .bad => refReloadFrom pool acc hlen (i + 1) rs
-          | g => refReloadFrom pool (acc ++ [{ info := { idx := i, rule := r, geom := g }, since := hlen }]) hlen (i + 1) rs
+          | g => refReloadFrom pool (acc ++ [{ info := { idx := i, rule := r, geom := g }, since := hlen, born := hlen }]) hlen (i + 1) rs
     else refReloadFrom pool acc hlen (i + 1) rs
 
 def refReloadG (s : RSt) (rules : List Rule) (base : Nat) : RSt :=
@@ -551,5 +554,58 @@ def refStepThreadG (srcOf : RuleInfo → Nat) (s : RSt) (t : Nat) (ths : List Th
 def refRunSchedG (srcOf : RuleInfo → Nat) (s : RSt) (t : Nat) (ths : List Thread) : List Nat → RSt × Nat × List Thread
   | [] => (s, t, ths)
   | i :: r => let x := refStepThreadG srcOf s t ths i; refRunSchedG srcOf x.1 x.2.1 x.2.2 r
+
+/-! ### whole op histories: what the driver executes for `clock` / `load` / `entry` -/
+
+inductive Op where
+  | clock (ms : Nat)
+  | load (rules : List Rule)
+  | entry (res b : Nat)
+deriving Repr
+
+/-- an observation: nothing, the number of controllers after a load, or a decision with the time slept (ns) -/
+inductive Out where
+  | silent
+  | loaded (n : Nat)
+  | dec (d : Option Nat) (slept : Nat)
+deriving Repr, DecidableEq
+
+/-- executed side: state, virtual clock (ns), number of rules loaded so far (ids of the next load) -/
+structure MSt where
+  s : St := {}
+  t : Nat := 0
+  nrules : Nat := 0
+
+def stepOp (m : MSt) : Op → MSt × Out
+  | .clock ms => ({ m with t := max m.t (ms * nsPerMs) }, .silent)
+  | .load rules =>
+    let s := reloadG m.s rules (m.t / nsPerMs) m.nrules
+    ({ m with s := s, nrules := m.nrules + rules.length }, .loaded s.ctrls.length)
+  | .entry res b =>
+    let x := entryG m.s res m.t b
+    ({ m with s := x.1, t := x.2.1 }, .dec x.2.2 (x.2.1 - m.t))
+
+def runOps (m : MSt) : List Op → MSt × List Out
+  | [] => (m, [])
+  | o :: r => let x := stepOp m o; let y := runOps x.1 r; (y.1, x.2 :: y.2)
+
+/-- reference side -/
+structure RMSt where
+  r : RSt := {}
+  t : Nat := 0
+  nrules : Nat := 0
+
+def refStepOp (srcOf : RuleInfo → Nat) (m : RMSt) : Op → RMSt × Out
+  | .clock ms => ({ m with t := max m.t (ms * nsPerMs) }, .silent)
+  | .load rules =>
+    let r := refReloadG m.r rules m.nrules
+    ({ m with r := r, nrules := m.nrules + rules.length }, .loaded r.ctrls.length)
+  | .entry res b =>
+    let x := refEntryG srcOf m.r res m.t b
+    ({ m with r := x.1, t := x.2.1 }, .dec x.2.2 (x.2.1 - m.t))
+
+def refRunOps (srcOf : RuleInfo → Nat) (m : RMSt) : List Op → RMSt × List Out
+  | [] => (m, [])
+  | o :: r => let x := refStepOp srcOf m o; let y := refRunOps srcOf x.1 r; (y.1, x.2 :: y.2)
 
 end Sentinel.FlowReject
